@@ -6,7 +6,7 @@ from bridge_env.data_handler.json_handler.parser import (JsonParser, convert_boa
 from bridge_env.data_handler.json_handler.writer import (JsonBoardSettingWriter, JsonLogWriter,
                                                          JsonWriter)
 from bridge_env.data_handler.pbn_handler.writer import Scoring
-from pyvc.dsl import (Bool, Card as CardS, CardSet, Const, Dict, Enum, EnumElem, Ext, Int, Obj,
+from pyvc.dsl import (Bool, Card as CardS, CardSet, Const, Dict, Enum, EnumElem, Ext, Int, Obj, OpaqueVal, TraceReset, LoopContract,
                       OneOf, Opt, Seq, Shape, TraceList, Tuple, contract, klass, lemma, transparent)
 from pyvc.speclib import (conj, disj, forall, iff, implies, ite, json_conforms, json_text,
                           load_schema, same)
@@ -259,6 +259,8 @@ def _sample_setting(rng, log=False):
 
 @contract('bridge_env.data_handler.json_handler.parser.convert_board_setting', props=['C12', 'C17'])
 class _convert_setting:
+    at_calls = 'abstract'
+    abstract_raises = (Exception,)
     fresh_params = _setting_params
     sample_params = lambda rng: _sample_setting(rng, False)
     params_from_ghosts = lambda g: dict(data=J.setting_record(**{k[len('ghost_'):]: v
@@ -276,6 +278,9 @@ class _convert_setting:
 
 @contract('bridge_env.data_handler.json_handler.parser.convert_board_log', props=['C12'])
 class _convert_log:
+    at_calls = 'abstract'
+    abstract_raises = (Exception,)
+    returns = OpaqueVal('board_log')
     fresh_params = _log_params
     sample_params = lambda rng: _sample_setting(rng, True)
     params_from_ghosts = lambda g: dict(data=J.log_record(**{k[len('ghost_'):]: v
@@ -319,3 +324,61 @@ class _convert_log:
     # per-side scores keyed by the library's side objects
     def ensures_scores_by_side(result, ghost_scores):
         return result.scores == ghost_scores
+
+
+# ---- the list level: every record of the document is converted once, in order --------------------
+
+from pyvc.speclib import abstract_result
+
+RecordList = Ext('boardlist', dict(n=Int(0), reads=TraceList(), item_shape=Const(OpaqueVal('record'))))
+LogDocument = Ext('jsonfile', dict(doc=Dict({'logs': RecordList})))
+SettingsDocument = Ext('jsonfile', dict(doc=Dict({'board_settings': RecordList})))
+
+
+def _list_inv():
+    return True
+
+
+def _log_converted_in_place(outputs, d):
+    return outputs == [abstract_result(convert_board_log, d)]
+
+
+def _setting_converted_in_place(outputs, d):
+    return outputs == [abstract_result(convert_board_setting, d)]
+
+
+@contract('bridge_env.data_handler.json_handler.parser.JsonParser.parse_board_logs', props=['C12'])
+class _parse_board_logs:
+    params = dict(self=Obj(JsonParser, {}), fp=LogDocument)
+    raises = {Exception: 'onlyif'}      # a record outside the format
+    exc_havoc = True
+    modifies = ['fp']
+    loops = {0: LoopContract(invariant=_list_inv, havoc_heap=dict(outputs=TraceReset()),
+                             body_ensures=dict(record_converted_in_place=_log_converted_in_place))}
+    note = ('the document is what json.load returns (assumed: for a file written by JsonLogWriter, '
+            '{"logs": [the records written, in order]}); each record is converted by '
+            'convert_board_log (its own contract) exactly once, in order')
+
+
+@contract('bridge_env.data_handler.json_handler.parser.JsonParser.parse_board_settings',
+          props=['C12', 'C17'])
+class _parse_board_settings_json:
+    params = dict(self=Obj(JsonParser, {}), fp=OneOf([None]))
+    fresh_params = lambda ctx, it: dict(fp=(LogDocument if ctx.decide_among(
+        _kk(ctx), [0, 1]) == 0 else SettingsDocument).fresh(ctx, 'fp'))
+    at_calls = 'contract'
+    raises = {Exception: 'onlyif'}
+    exc_havoc = True
+    modifies = ['fp']
+    loops = {0: LoopContract(invariant=_list_inv, havoc_heap=dict(outputs=TraceReset()),
+                             body_ensures=dict(
+                                 record_converted_in_place=_setting_converted_in_place))}
+    note = ('a game-log document ("logs") and a board-settings document ("board_settings") are '
+            'both accepted; every record is converted by convert_board_setting once, in order')
+
+
+def _kk(ctx):
+    import z3
+    k = ctx.fresh_int('doc_kind')
+    ctx.assume_type(z3.And(k >= 0, k <= 1))
+    return k
